@@ -109,6 +109,21 @@ def stableBorrowInterest (amount : Int) (rate : Dec) (now prev : Int) : Out :=
   let secs := elapsed now prev
   if secs < 0 then .err else .ok [stableInterest amount rate secs]
 
+/-- **what ONE accrual charges a borrow position, on EVERY route** — `IterateBorrow` (iter.go:144-184: messages) and
+`IterateBorrowForLiq` (keeper.go:1809-1838: `CalculateBorrowInterestForLiquidation`, both liquidation generations): the index-based
+interest for a variable-rate borrow, the locked-rate interest `amt·stableRate·years` — and ONLY that — for a stable-rate borrow -/
+def borrowCharge (stable : Bool) (amount : Int) (apr rr stableRate gi rgi : Dec) (now prev : Int) : Out :=
+  match borrowInterest amount apr rr gi rgi now prev with
+  | .ok [dI, _, _, _] =>
+    if stable then
+      match stableBorrowInterest amount stableRate now prev with
+      | .ok [dS] => .ok [dS]
+      | _ => .err
+    else .ok [dI]
+  | .ok _ => .err
+  | .err => .err
+  | .panic => .panic
+
 /-! ## re-balancing of a stable-rate borrow (iter.go:266-288 `ReBalanceStableRates`, called by the liquidation modules) -/
 
 def perc1 : Dec := 200000000000000000   -- types.Perc1 = 0.2
